@@ -54,7 +54,7 @@ class CaseTimeout(BaseException):
 
 class Out:
     """Verdict accumulator for one case."""
-    __slots__ = ('fails', 'undecided', 'counters', 'nontrivial', 'info', 'checks')
+    __slots__ = ('fails', 'undecided', 'counters', 'nontrivial', 'info', 'checks', 'replay_case')
 
     def __init__(self):
         self.fails = []
@@ -63,6 +63,7 @@ class Out:
         self.nontrivial = False
         self.info = {}
         self.checks = 0
+        self.replay_case = None     # set when the witness needs more than this case (a sequence of cases in one process)
 
     def fail(self, clause, msg, **detail):
         d = {'clause': clause, 'msg': str(msg)[:2000]}
@@ -141,8 +142,10 @@ class Check:
 
     def __init__(self):
         from vlib.monitors import Recorder, ReachMonitor
+        from vlib.brd import BufferReuse
         self.rec = Recorder()
         self.reach = ReachMonitor()
+        self.brd = BufferReuse()     # buffer-reuse differential monitor (vlib/brd.py); a check attaches its pure functions in setup()
         self.tier = 'quick'
         self.workdir = None
 
@@ -218,7 +221,21 @@ def run_one(check, case, cls, idx):
     try:
         try:
             try:
-                check.run(case, out)
+                # a witness may be a sequence of cases run one after another in the same process (what the first leaves behind is
+                # what the second meets): {'kind': '__sequence__', 'cases': [...]}
+                seq = case['cases'] if isinstance(case, dict) and case.get('kind') == '__sequence__' else [case]
+                for sub in seq:
+                    check.brd.new_case(sub)
+                    try:
+                        check.run(sub, out)
+                    finally:
+                        bf, bc, bseq = check.brd.drain()
+                        for n_, v_ in bc.items():
+                            out.count(n_, v_)
+                        for clause_, msg_, detail_ in bf:
+                            out.fail(clause_, msg_, **detail_)
+                        if bf and bseq and len(seq) == 1 and len(bseq) > 1:
+                            out.replay_case = {'kind': '__sequence__', 'cases': bseq}
             finally:
                 canary_check(check, out)
                 if np.geterr() != errstate0:
@@ -303,7 +320,7 @@ def shard_main(check, tier, shard, nshards, seed, outpath, findings):
                     res['harness_errors'] += 1
                 mech = check.classify(case, out)
                 rec = {'property': check.ID, 'class': cls, 'index': i, 'seed': seed, 'hash': h,
-                       'mechanism': mech, 'case': case, 'fails': out.fails,
+                       'mechanism': mech, 'case': out.replay_case or case, 'fails': out.fails,
                        'events': jsonable(check.rec.events[-100:]), 'info': jsonable(out.info)}
                 if finding is not None:
                     rec['finding'] = finding['id']
